@@ -42,17 +42,22 @@ KW_LEADING = re.compile(r"^\.(and|or|as|then|elif|else|end|catch)(?![A-Za-z0-9_]
 NONASCII_AFTER_BRACKET = re.compile(r"\]\.[^\x00-\x7f]")
 
 
-def classify(e):
+def classify(e, doc=None):
     """Class of a loc event from its own content (used for known-finding signatures)."""
     if e.get("found") != 1:
         return "not-located"
-    v = e.get("val", {})
-    if v.get("t") == "err":
-        x = e.get("expr", "")
-        if KW_LEADING.search(x):
-            return "expr-unparsable:leading-dot-key-is-keyword"
-        if NONASCII_AFTER_BRACKET.search(x):
-            return "expr-parser-panic:non-ascii-dot-key-after-bracket"
+    if e.get("via") == "cli" and "ao" in e and doc is not None and doc[:1] in (" ", "\t", "\n", "\r"):
+        # position builtins through `succinctly jq` on a file that starts with whitespace
+        return "cli-position-builtins-relative-to-value-start"
+    x = e.get("expr", "")
+    # the two input classes of the known findings are recognisable from the printed expression alone:
+    # such an expression can never be parsed as the path it spells (`.or[0]` even evaluates -- to
+    # `. or [0]` = true), so every event of the class belongs to the finding
+    if KW_LEADING.search(x):
+        return "expr-unparsable:leading-dot-key-is-keyword"
+    if NONASCII_AFTER_BRACKET.search(x):
+        return "expr-parser-panic:non-ascii-dot-key-after-bracket"
+    if e.get("val", {}).get("t") == "err":
         return "expr-does-not-evaluate"
     return "other"
 
@@ -61,7 +66,13 @@ def make_sig_of(fmt):
     def sig_of(e, events, k):
         if e.get("e") != "loc":
             return {"event": e.get("e")}
-        return {"event": "loc", "fmt": fmt, "via": e.get("via", "lib"), "class": classify(e)}
+        doc = None
+        if e.get("via") == "cli":
+            for i in range(k, -1, -1):
+                if events[i].get("e") == "build":
+                    doc = events[i].get("doc")
+                    break
+        return {"event": "loc", "fmt": fmt, "via": e.get("via", "lib"), "class": classify(e, doc)}
     return sig_of
 
 
@@ -115,12 +126,14 @@ def cli_stage(ctx, fmt, sample_dir, sig_of):
     cli = vlib.cli_bin(hooks=True)
     sub = "jq-locate" if fmt == "json" else "yq-locate"
     samples = vlib.read_ndjson(os.path.join(sample_dir, "samples.ndjson"))
-    events = []
+    events = []      # locate + evaluation of the printed expression
+    events_pos = []  # the same plus the position builtins at_offset / at_position through the CLI
     runs = 0
     for s in samples:
         path = s["file"]
         events.append(s["build"])
-        n = 0
+        events_pos.append(s["build"])
+        n = npos = 0
         for o in sorted(s["offs"], key=lambda x: x["off"]):
             off, ln, col = o["off"], o["ln"], o["col"]
             loc, err = cli_locate(cli, sub, path, ["--offset", str(off)])
@@ -129,8 +142,7 @@ def cli_stage(ctx, fmt, sample_dir, sig_of):
             runs += 2 if fmt == "json" else 1
             ev = {"e": "loc", "via": "cli", "off": off, "ln": ln, "col": col}
             if loc is None:
-                ev.update({"expr": "", "found": 0, "rs": -1, "re": -1, "val": {"t": "err", "msg": err},
-                           "ao": {"t": "err", "msg": "-"}, "ap": {"t": "err", "msg": "-"}})
+                ev.update({"expr": "", "found": 0, "rs": -1, "re": -1, "val": {"t": "err", "msg": err}})
                 events.append(ev)
                 n += 1
                 continue
@@ -141,28 +153,39 @@ def cli_stage(ctx, fmt, sample_dir, sig_of):
                 ev["note"] = "--line/--column answer differs: %s" % json.dumps(loc2)
             if fmt == "json":
                 ev["val"] = cli_value(cli, ["jq", "-c", expr, path])
-                ev["ao"] = cli_value(cli, ["jq", "-c", "at_offset(%d)" % off, path])
-                ev["ap"] = cli_value(cli, ["jq", "-c", "at_position(%d; %d)" % (ln, col), path])
-                runs += 3
+                runs += 1
             else:
                 # the stream's documents collected into an array: --slurp
                 ev["val"] = cli_value(cli, ["yq", "-o", "json", "-I", "0", "--slurp", expr, path])
                 runs += 1
-                if len(s["build"]["tree"]["v"]) == 1:
-                    # (a multi-document stream is evaluated once per document by yq: at_offset would be
-                    # printed once per document; the library-level at_offset is bound by the trace stage)
-                    ev["ao"] = cli_value(cli, ["yq", "-o", "json", "-I", "0", "at_offset(%d)" % off, path])
-                    runs += 1
             events.append(ev)
             n += 1
+            evp = dict(ev)
+            if fmt == "json":
+                evp["ao"] = cli_value(cli, ["jq", "-c", "at_offset(%d)" % off, path])
+                evp["ap"] = cli_value(cli, ["jq", "-c", "at_position(%d; %d)" % (ln, col), path])
+                runs += 2
+            elif len(s["build"]["tree"]["v"]) == 1:
+                # (a multi-document stream is evaluated once per document by yq: at_offset would be
+                # printed once per document; the library-level at_offset is bound by the trace stage)
+                evp["ao"] = cli_value(cli, ["yq", "-o", "json", "-I", "0", "at_offset(%d)" % off, path])
+                runs += 1
+            if "ao" in evp:
+                events_pos.append(evp)
+                npos += 1
         events.append({"e": "end", "n": n, "all": 0})
-    tp = ctx.path("trace-cli.ndjson")
-    vlib.write_ndjson(tp, events)
+        events_pos.append({"e": "end", "n": npos, "all": 0})
     ctx.stage("cli observations", time.time() - t0, documents=len(samples), cli_runs=runs,
-              events=len(events))
+              events=len(events), events_pos=len(events_pos))
     ctx.add("cli_runs", runs)
-    n = vlib.check_trace(ctx, "Trace_Locate.tla", "Trace.cfg", tp, sig_of,
-                         group_key=lambda e: e.get("e") == "build", timeout=900, selftest=False)
+    n = 0
+    for name, evs in (("trace-cli.ndjson", events), ("trace-cli-pos.ndjson", events_pos)):
+        tp = ctx.path(name)
+        vlib.write_ndjson(tp, evs)
+        n += vlib.check_trace(ctx, "Trace_Locate.tla", "Trace.cfg", tp, sig_of,
+                              group_key=lambda e: e.get("e") == "build", timeout=900, selftest=False)
+        if ctx.violations:
+            break
     return n
 
 
